@@ -9,6 +9,7 @@ import (
 	"encoding/json"
 	"fmt"
 	"os"
+	"runtime/debug"
 	"time"
 )
 
@@ -40,6 +41,7 @@ type Witness struct {
 type Outcome struct {
 	Failed      []string `json:"failed_asserts"`
 	Panic       string   `json:"panic,omitempty"`
+	Stack       string   `json:"stack,omitempty"`
 	Diverged    string   `json:"diverged,omitempty"`
 	AssumeFalse bool     `json:"assume_false,omitempty"`
 	Obs         []obsVal `json:"observations"`
@@ -107,6 +109,7 @@ func Run(f func()) *Outcome {
 					out.Diverged = x.msg
 				default:
 					out.Panic = fmt.Sprint(r)
+					out.Stack = string(debug.Stack())
 				}
 			}
 		}()
